@@ -190,20 +190,27 @@ type Case struct {
 	Raw      kit.V
 }
 
+func caseFrom(t testing.TB, rule string, in kit.V, expected string, raw kit.V) *Case {
+	c := &Case{Rule: rule, Recv: in.Get("recv").Int(), Key: in.Get("key").Str(),
+		Wire: uint32(in.Get("wire").Int()), Kind: in.Get("kind").Str(), BadCtx: map[string]bool{},
+		Excl:   Excl{Who: in.Get("excl").Get("who").Int(), Kind: in.Get("excl").Get("kind").Str(), When: in.Get("excl").Get("when").Str()},
+		MsgKey: in.Get("msgKey").Str(), Leader: in.Get("leader").Str(), Extra: in.Get("extra").Str(),
+		Expected: expected, Raw: raw}
+	for _, f := range in.Get("badctx").Strs() {
+		c.BadCtx[f] = true
+	}
+	if c.Key == "" || c.Kind == "" {
+		t.Fatalf("verifadm: malformed case %s", raw.JSON())
+	}
+	return c
+}
+
 // LoadCases reads cases.ndjson grouped by rule.
 func LoadCases(t testing.TB) map[string][]*Case {
 	out := map[string][]*Case{}
 	for _, v := range kit.LoadCases(t, "cases.ndjson") {
-		in := v.Get("in")
-		c := &Case{Rule: v.Get("rule").Str(), Recv: in.Get("recv").Int(), Key: in.Get("key").Str(),
-			Wire: uint32(in.Get("wire").Int()), Kind: in.Get("kind").Str(), BadCtx: map[string]bool{},
-			Excl:   Excl{Who: in.Get("excl").Get("who").Int(), Kind: in.Get("excl").Get("kind").Str(), When: in.Get("excl").Get("when").Str()},
-			MsgKey: in.Get("msgKey").Str(), Leader: in.Get("leader").Str(), Extra: in.Get("extra").Str(),
-			Expected: v.Get("expected").Str(), Raw: v}
-		for _, f := range in.Get("badctx").Strs() {
-			c.BadCtx[f] = true
-		}
-		if c.Rule == "" || c.Key == "" || c.Expected == "" {
+		c := caseFrom(t, v.Get("rule").Str(), v.Get("in"), v.Get("expected").Str(), v)
+		if c.Rule == "" || c.Expected == "" {
 			t.Fatalf("verifadm: malformed case %s", v.JSON())
 		}
 		out[c.Rule] = append(out[c.Rule], c)
@@ -651,6 +658,132 @@ func Run(t *testing.T, rep *kit.Report, w *World, steps []Step, cases map[string
 		}
 	}
 	rep.Extra["steps"] = stepTable
+}
+
+// ---------------------------------------------------------------- sequences (specs/Admission/AdmissionLoop.tla)
+
+// Fault is a coordination fault in the specification's terms.
+type Fault struct {
+	Type    string `json:"type"`
+	Culprit string `json:"culprit"` // key name
+}
+
+// LoopState is what a receiving loop kept after a sequence of deliveries.
+type LoopState struct {
+	Stored   []int    `json:"stored"`   // numbers of the admitted messages, in order (kind append)
+	Ready    []int    `json:"ready"`    // ready member indexes, ascending (kind set)
+	Done     [][2]int `json:"done"`     // [member, message number], ascending (kind firstWins)
+	Faults   []Fault  `json:"faults"`   // recorded faults in order (kind untilAccept)
+	Returned int      `json:"returned"` // number of the message whose proposal was returned, 0 = none
+}
+
+// Sequence is one behaviour of AdmissionLoop: messages and the expected final state.
+type Sequence struct {
+	Step, Kind string
+	Excl       Excl
+	Leader     string
+	Names      []string
+	Msgs       []*Case
+	Expected   LoopState
+	Raw        kit.V
+}
+
+// LoadSequences reads the behaviours of one step from sequences.ndjson.
+func LoadSequences(t testing.TB, step string) []*Sequence {
+	var out []*Sequence
+	for _, v := range kit.LoadCases(t, "sequences.ndjson") {
+		if v.Get("step").Str() != step {
+			continue
+		}
+		q := &Sequence{Step: step, Kind: v.Get("kind").Str(), Leader: v.Get("leader").Str(), Raw: v,
+			Excl: Excl{Who: v.Get("excl").Get("who").Int(), Kind: v.Get("excl").Get("kind").Str(), When: v.Get("excl").Get("when").Str()}}
+		for _, m := range v.Get("msgs").List() {
+			q.Names = append(q.Names, m.Get("name").Str())
+			q.Msgs = append(q.Msgs, caseFrom(t, "", m.Get("c"), "", m))
+		}
+		e := v.Get("expected")
+		q.Expected = LoopState{Stored: e.Get("stored").Ints(), Ready: e.Get("ready").Ints(), Returned: e.Get("returned").Int(),
+			Done: [][2]int{}, Faults: []Fault{}}
+		for _, p := range e.Get("done").List() {
+			q.Expected.Done = append(q.Expected.Done, [2]int{p.Idx(0).Int(), p.Idx(1).Int()})
+		}
+		for _, f := range e.Get("faults").List() {
+			q.Expected.Faults = append(q.Expected.Faults, Fault{f.Get("type").Str(), f.Get("culprit").Str()})
+		}
+		sort.Ints(q.Expected.Ready)
+		sort.Slice(q.Expected.Done, func(i, j int) bool { return q.Expected.Done[i][0] < q.Expected.Done[j][0] })
+		out = append(out, q)
+	}
+	if len(out) == 0 {
+		t.Fatalf("verifadm: no sequences for step %s", step)
+	}
+	return out
+}
+
+// project keeps the fields the kind of loop has.
+func project(kind string, s LoopState) interface{} {
+	switch kind {
+	case "append":
+		return map[string]interface{}{"stored": append([]int{}, s.Stored...)}
+	case "set":
+		return map[string]interface{}{"ready": append([]int{}, s.Ready...)}
+	case "firstWins":
+		return map[string]interface{}{"done": append([][2]int{}, s.Done...)}
+	}
+	return map[string]interface{}{"faults": append([]Fault{}, s.Faults...), "returned": s.Returned}
+}
+
+// RunSequences replays every behaviour of the step with drive, which must
+// deliver the messages to a fresh real receiver and report what it kept.
+func RunSequences(t *testing.T, rep *kit.Report, step string, drive func(q *Sequence) (LoopState, string, error)) {
+	seqs := LoadSequences(t, step)
+	n := 0
+	for _, q := range seqs {
+		var got LoopState
+		var note string
+		var err error
+		func() {
+			defer func() {
+				if r := recover(); r != nil {
+					note = fmt.Sprintf("panic: %v", r)
+					got = LoopState{Returned: -1}
+				}
+			}()
+			got, note, err = drive(q)
+		}()
+		if err != nil {
+			t.Fatalf("verifadm: step %s sequence %v: %v", step, q.Names, err)
+		}
+		sort.Ints(got.Ready)
+		sort.Slice(got.Done, func(i, j int) bool { return got.Done[i][0] < got.Done[j][0] })
+		n++
+		nontrivial := ""
+		if len(q.Msgs) > 1 {
+			nontrivial = "seq|" + step + "|" + kit.Hash(q.Names)
+		}
+		var sample interface{}
+		if len(q.Msgs) == 3 {
+			sample = map[string]interface{}{"step": step, "messages": q.Names, "kept": project(q.Kind, got)}
+		}
+		rep.Eval(nontrivial, sample)
+		want, have := project(q.Kind, q.Expected), project(q.Kind, got)
+		if kit.Hash(want) == kit.Hash(have) {
+			continue
+		}
+		rep.Diverge(fmt.Sprintf("admission-seq:%s:%s", step, kit.Hash(q.Names)),
+			fmt.Sprintf("%s: after receiving the messages %v (exclusion %+v, leader %s) the step kept %s, the specification keeps %s%s",
+				step, q.Names, q.Excl, q.Leader, mustJSON(have), mustJSON(want), noteSuffix(note)),
+			map[string]interface{}{"step": step, "messages": q.Raw.Get("msgs").X}, want, have)
+	}
+	rep.Count("sequences:"+step, n)
+}
+
+func mustJSON(x interface{}) string { return kit.V{X: x}.JSON() }
+func noteSuffix(s string) string {
+	if s == "" {
+		return ""
+	}
+	return " (" + s + ")"
 }
 
 func describe(w *World, s Step, c *Case, typ, outcome, detail string) string {
